@@ -201,6 +201,8 @@ pub trait Mut {
     /// what the cell's caller-supplied BuildHasher returns for the key numbered `k` (computed outside the map, on the real
     /// key type); None = the cell's hasher is not known to the harness
     fn key_hash(&self, _k: u64) -> Option<u64> { None }
+    /// a bookkeeping counter that the cell's Coq model tracks (selected by `w`); None = none
+    fn counter(&mut self, _w: u64) -> Option<u64> { None }
     /// Clone: the map is replaced by its clone (even `w`) or the clone is compared with the map and dropped (odd `w`);
     /// where the type has PartialEq: clone == map, and a clone that differs in one value / one key / one entry is != map
     fn clone_swap(&mut self, _w: u64, _present: Option<(u64, u64)>, _absent: Option<u64>) -> Option<R<()>> { None }
@@ -532,6 +534,10 @@ impl<T: Ty> Mut for Easy<T> {
 // ---------------------------------------------------------------------------------------------
 pub struct StrM(pub HashStrMap<u64>);
 impl Mut for StrM {
+    fn counter(&mut self, w: u64) -> Option<u64> {
+        let st = self.0.statistics();
+        Some(match w % 3 { 0 => st.entries, 1 => st.total_strings, _ => st.unique_strings } as u64)
+    }
     fn insert(&mut self, k: u64, v: u64) -> Option<R<Option<u64>>> {
         let s = skey(k);
         Some(match k % 3 { 0 => self.0.insert(&s, v), 1 => self.0.insert_string(s, v), _ => self.0.insert_fast_str(FastStr::from_string(&s), v) }.map_err(estr))
